@@ -146,6 +146,10 @@ def gen_program(rng, names):
     # every other memory variable is assigned directly to a hash variable holding the same values, if there is one
     mem = [loc("a", i + 1, 1) for i, (n, f) in enumerate(names.outs) if n.startswith("e")]
     mem += [loc("l", i + 1, 1) for i in range(len(names.lvars))]
+    # a fixed-point hash variable is given a constant by the program: a whole number as often as a decimal
+    for i, (_, f, _) in enumerate(names.hvars):
+        if f == "x" and rng.random() < 0.5:
+            stmts.append(stmt("const", dst=loc("h", i + 1, 1), v=const_for(rng, "x")))
     for m in mem:
         hs = [loc("h", i + 1, 1) for i, (_, f, _) in enumerate(names.hvars) if f[-1] == names.fmt(m)[-1]]
         if hs and rng.random() < 0.7:
@@ -771,6 +775,18 @@ def pred_inherited_hash(case, reason=None):
         and case["event"]["op"] == "run" and (case.get("build_error") or "").startswith(("KeyError", "AttributeError"))
 
 
+def pred_whole_to_fixed_hash(case, reason=None):
+    """the program assigns a whole number to a fixed-point hash variable: HashGlobalVarDesc.__set__ (program side)
+    lacks the scaling Memory._set does, the cell gets the number itself instead of the number times 100000 (seen
+    on the variable or on a fixed-point variable copied from it)"""
+    if case["part"] != "history" or case["fmt"] != "x" or case["event"]["op"] not in ("pyread_h", "pyread_a"):
+        return False
+    e, g = case["expected"], case["event"]["v"]
+    while isinstance(e, list) and e:
+        e, g = e[0], g[0]
+    return isinstance(e, int) and isinstance(g, int) and e != 0 and g * M.SCALE == e
+
+
 def pred_f3(case, reason=None):
     """fixed-point result variable one unit closer to zero (F3 of C02 / C08)"""
     if case["part"] != "history" or case["fmt"] != "x" or case["event"]["op"] != "pyread_a":
@@ -787,6 +803,7 @@ def classify(ctx):
                ("iteration over an empty Dict raises RuntimeError", pred_iter_empty),
                ("constant assigned to a hash variable in a program (AttributeError)", pred_const_to_hash),
                ("hash variable read while r0 is in use (after a Dict operation): program refused", pred_hash_read_r0_refused),
+               ("whole number assigned to a fixed-point hash variable by the program", pred_whole_to_fixed_hash),
                ("F3 fixed-point truncation", pred_f3),
                ("F10 x-format hash variable", pred_x_hash),
                ("hash variables inherited from a base class (HashMap.load / init)", pred_inherited_hash)]
